@@ -11,7 +11,9 @@
  * of create/wait/end/other intervals and of edges by kind.  They must equal what
  * the recorder holds in its root node after dr_stop, whatever contraction options
  * are in force (set through the documented DR_* environment variables).
- * args: seed= prefix=<output file prefix> depth= fan= workers= maxspin=
+ * par=1: every task is a real OS thread holding a worker token while it talks to the recorder, so the
+ * intervals of different workers overlap in time (work exceeds elapsed time, as in a real parallel run).
+ * args: seed= prefix=<output file prefix> depth= fan= workers= maxspin= par=
  */
 #ifndef _GNU_SOURCE
 #define _GNU_SOURCE
@@ -20,93 +22,183 @@
 #include <dag_recorder_impl.h>
 #include "hk.h"
 
-static hk_rng_t R;
-static int g_workers, g_max_depth, g_fan;
+#include <pthread.h>
+
+static int g_workers, g_max_depth, g_fan, g_par, g_vt;
+/* vt=1 (serial): virtual time.  Every task has its own clock; a child starts at its parent's time of creation and
+   runs 'in parallel' with the parent's continuation, a wait returns at the latest end of the section's children. */
+static unsigned long long * g_now;
+#define VT() do { if (g_vt) myth_verif_dr_vclock_set(*g_now); } while (0)
 static unsigned g_maxspin;
 
-/* oracle, fed by the hooks */
-static unsigned long long g_last_dur, g_T1;
-static long g_n_create, g_n_wait, g_n_end, g_n_other, g_n_section, g_hook_calls;
+/* oracle, fed by the hooks (the hook runs on the thread that closes the interval) */
+static __thread unsigned long long g_last_dur;
+static unsigned long long g_T1;
+static long g_n_create, g_n_wait, g_n_end, g_n_other, g_n_section, g_hook_calls, g_threads_started, g_max_live;
 static int g_files_used;
+#define CNT(x) __sync_fetch_and_add(&(x), 1)
 
 static int on_interval(dr_dag_node * n) {
   g_last_dur = n->info.end.t - n->info.start.t;
   HK_CHECK(n->info.end.t >= n->info.start.t, "dr:interval-negative", "an interval ends before it starts");
-  g_T1 += g_last_dur;
-  g_hook_calls++;
+  __sync_fetch_and_add(&g_T1, g_last_dur);
+  CNT(g_hook_calls);
   return 0;
 }
 
-static void spin(void) {
-  unsigned n = (unsigned)hk_below(&R, 6) == 0 ? (unsigned)hk_below(&R, g_maxspin + 1) : (unsigned)hk_below(&R, 200);
+/* ---- par=1: every task is an OS thread; a thread must hold a worker token while it calls the
+   recorder (at most one thread per worker id at any time, as with real workers); tokens are given
+   up while waiting for children, so intervals of different workers overlap in time ---- */
+static pthread_mutex_t g_tok_m = PTHREAD_MUTEX_INITIALIZER;
+static pthread_cond_t g_tok_c = PTHREAD_COND_INITIALIZER;
+static unsigned char g_tok_busy[64];
+static long g_live;
+static int tok_acquire(hk_rng_t * r) {
+  pthread_mutex_lock(&g_tok_m);
+  for (;;) {
+    int free_ids[64], nf = 0, w;
+    for (w = 0; w < g_workers; w++) if (!g_tok_busy[w]) free_ids[nf++] = w;
+    if (nf) { w = free_ids[hk_below(r, (uint64_t)nf)]; g_tok_busy[w] = 1; pthread_mutex_unlock(&g_tok_m); return w; }
+    pthread_cond_wait(&g_tok_c, &g_tok_m);
+  }
+}
+static void tok_release(int w) {
+  pthread_mutex_lock(&g_tok_m);
+  g_tok_busy[w] = 0;
+  pthread_cond_broadcast(&g_tok_c);
+  pthread_mutex_unlock(&g_tok_m);
+}
+
+static void spin(hk_rng_t * r) {
+  unsigned n = (unsigned)hk_below(r, 6) == 0 ? (unsigned)hk_below(r, g_maxspin + 1) : (unsigned)hk_below(r, 200);
+  if (g_vt) { *g_now += 1 + n; return; }
+  if (g_par) n = n * 8 + 3000;    /* long enough for sibling tasks to overlap despite thread start-up cost */
   hk_work(n);
 }
-static int pick_worker(int cur) {
+static int pick_worker(hk_rng_t * r, int cur) {
   /* a task may come back on another worker after any runtime call */
-  return hk_below(&R, 3) == 0 ? (int)hk_below(&R, (uint64_t)g_workers) : cur;
+  if (hk_below(r, 3) != 0) return cur;
+  if (!g_par) return (int)hk_below(r, (uint64_t)g_workers);
+  tok_release(cur);
+  return tok_acquire(r);
 }
-static const char * pick_file(void) {
+static const char * pick_file(hk_rng_t * r) {
   static char names[300][24];
-  int i = (int)hk_below(&R, (uint64_t)g_files_used);
-  if (!names[i][0]) snprintf(names[i], sizeof(names[i]), "src_%03d.c", i);
-  return names[i];
+  static int inited;
+  if (!inited) { int i; for (i = 0; i < 300; i++) snprintf(names[i], sizeof(names[i]), "src_%03d.c", i); inited = 1; }
+  return names[hk_below(r, (uint64_t)g_files_used)];
 }
 
 typedef unsigned long long ull;
-static ull run_task(dr_dag_node * created_by, int * worker, int depth, int is_root);
+static ull run_task(hk_rng_t * r, dr_dag_node * created_by, int * worker, int depth, int is_root);
 
-/* returns the section's critical path; *serial_out is not needed by callers */
-static ull run_section(int * worker, int depth, int nested, int explicit_begin) {
+typedef struct { pthread_t th; dr_dag_node * created_by; int depth; uint64_t rseed; ull tinf; ull serial_at_create; } child_t;
+static void * child_thread(void * a_) {
+  child_t * c = (child_t *)a_;
+  hk_rng_t r; hk_rng_seed(&r, c->rseed, 141);
+  long live = __sync_add_and_fetch(&g_live, 1);
+  if (live > g_max_live) g_max_live = live;
+  int w = tok_acquire(&r);
+  c->tinf = run_task(&r, c->created_by, &w, c->depth, 0);
+  tok_release(w);
+  __sync_fetch_and_sub(&g_live, 1);
+  return 0;
+}
+
+/* returns the section's critical path */
+static ull run_section(hk_rng_t * r, int * worker, int depth, int nested, int explicit_begin) {
   ull serial = 0, best = 0;
+  VT();
   if (nested || explicit_begin) dr_begin_section__(*worker);
-  g_n_section++;
-  int items = (int)hk_below(&R, (uint64_t)g_fan + 1), k;
+  CNT(g_n_section);
+  int items = (int)hk_below(r, (uint64_t)g_fan + 1), k;
+  child_t kids[8];
+  int nk = 0;
+  ull last_child_end = 0;
   for (k = 0; k < items; k++) {
-    spin();
-    unsigned what = (unsigned)hk_below(&R, 10);
-    if (what < 6 && depth < g_max_depth) {
+    spin(r);
+    unsigned what = (unsigned)hk_below(r, 10);
+    if (what < 6 && depth < g_max_depth && nk < 8) {
       dr_dag_node * ci = 0;
-      dr_dag_node * t = dr_enter_create_task__(&ci, pick_file(), __LINE__, *worker);
-      serial += g_last_dur; g_n_create++;
-      int cw = (int)hk_below(&R, (uint64_t)g_workers);
-      ull child = run_task(ci, &cw, depth + 1, 0);
-      if (serial + child > best) best = serial + child;
-      *worker = pick_worker(*worker);
-      dr_return_from_create_task__(t, pick_file(), __LINE__, *worker);
+      VT();
+      dr_dag_node * t = dr_enter_create_task__(&ci, pick_file(r), __LINE__, *worker);
+      serial += g_last_dur; CNT(g_n_create);
+      if (g_par) {
+        child_t * c = &kids[nk++];
+        c->created_by = ci; c->depth = depth + 1; c->rseed = hk_rand(r); c->serial_at_create = serial; c->tinf = 0;
+        pthread_attr_t at; pthread_attr_init(&at); pthread_attr_setstacksize(&at, 512 * 1024);
+        int rc = pthread_create(&c->th, &at, child_thread, c);
+        HK_CHECK(rc == 0, "dr:harness", "pthread_create failed (%d)", rc);
+        pthread_attr_destroy(&at);
+        CNT(g_threads_started);
+      } else {
+        int cw = (int)hk_below(r, (uint64_t)g_workers);
+        ull child_now = g_vt ? *g_now + hk_below(r, 60) : 0, * saved = g_now;
+        if (g_vt) g_now = &child_now;
+        ull child = run_task(r, ci, &cw, depth + 1, 0);
+        g_now = saved;
+        if (child_now > last_child_end) last_child_end = child_now;
+        if (serial + child > best) best = serial + child;
+      }
+      *worker = pick_worker(r, *worker);
+      if (g_vt) *g_now += hk_below(r, 40);
+      VT();
+      dr_return_from_create_task__(t, pick_file(r), __LINE__, *worker);
     } else if (what < 8 && depth < g_max_depth) {
-      serial += run_section(worker, depth + 1, 1, 0);
+      serial += run_section(r, worker, depth + 1, 1, 0);
     } else {
-      dr_dag_node * t = dr_enter_other__(pick_file(), __LINE__, *worker);
-      serial += g_last_dur; g_n_other++;
-      *worker = pick_worker(*worker);
-      dr_return_from_other__(t, pick_file(), __LINE__, *worker);
+      VT();
+      dr_dag_node * t = dr_enter_other__(pick_file(r), __LINE__, *worker);
+      serial += g_last_dur; CNT(g_n_other);
+      *worker = pick_worker(r, *worker);
+      if (g_vt) *g_now += hk_below(r, 400);
+      VT();
+      dr_return_from_other__(t, pick_file(r), __LINE__, *worker);
     }
   }
-  spin();
-  dr_dag_node * t = dr_enter_wait_tasks__(pick_file(), __LINE__, *worker);
-  serial += g_last_dur; g_n_wait++;
-  *worker = pick_worker(*worker);
-  dr_return_from_wait_tasks__(t, pick_file(), __LINE__, *worker);
+  spin(r);
+  VT();
+  dr_dag_node * t = dr_enter_wait_tasks__(pick_file(r), __LINE__, *worker);
+  serial += g_last_dur; CNT(g_n_wait);
+  if (g_par) {
+    /* blocked in the wait: the worker is free for somebody else until all children have ended */
+    tok_release(*worker);
+    for (k = 0; k < nk; k++) {
+      pthread_join(kids[k].th, 0);
+      if (kids[k].serial_at_create + kids[k].tinf > best) best = kids[k].serial_at_create + kids[k].tinf;
+    }
+    *worker = tok_acquire(r);
+  } else {
+    *worker = pick_worker(r, *worker);
+  }
+  if (g_vt) { if (last_child_end > *g_now) *g_now = last_child_end; *g_now += 1 + hk_below(r, 40); }
+  VT();
+  dr_return_from_wait_tasks__(t, pick_file(r), __LINE__, *worker);
   return best > serial ? best : serial;
 }
 
-static ull run_task(dr_dag_node * created_by, int * worker, int depth, int is_root) {
+static ull run_task(hk_rng_t * r, dr_dag_node * created_by, int * worker, int depth, int is_root) {
   ull serial = 0;
-  if (!is_root) dr_start_task__(created_by, pick_file(), __LINE__, *worker);
-  int nsec = (int)hk_below(&R, 4), k;
+  VT();
+  if (!is_root) dr_start_task__(created_by, pick_file(r), __LINE__, *worker);
+  int nsec = (int)hk_below(r, 4), k;
   if (is_root && nsec == 0) nsec = 1;
   for (k = 0; k < nsec; k++) {
-    spin();
-    if (hk_below(&R, 4) == 0) {
-      dr_dag_node * t = dr_enter_other__(pick_file(), __LINE__, *worker);
-      serial += g_last_dur; g_n_other++;
-      *worker = pick_worker(*worker);
-      dr_return_from_other__(t, pick_file(), __LINE__, *worker);
+    spin(r);
+    if (hk_below(r, 4) == 0) {
+      VT();
+      dr_dag_node * t = dr_enter_other__(pick_file(r), __LINE__, *worker);
+      serial += g_last_dur; CNT(g_n_other);
+      *worker = pick_worker(r, *worker);
+      if (g_vt) *g_now += hk_below(r, 400);
+      VT();
+      dr_return_from_other__(t, pick_file(r), __LINE__, *worker);
     }
-    serial += run_section(worker, depth, 0, (int)hk_below(&R, 2));
+    serial += run_section(r, worker, depth, 0, (int)hk_below(r, 2));
   }
-  spin();
-  if (!is_root) { dr_end_task__(pick_file(), __LINE__, *worker); serial += g_last_dur; g_n_end++; }
+  spin(r);
+  VT();
+  if (!is_root) { dr_end_task__(pick_file(r), __LINE__, *worker); serial += g_last_dur; CNT(g_n_end); }
   return serial;
 }
 
@@ -120,7 +212,13 @@ int main(int argc, char ** argv) {
   g_maxspin = (unsigned)hk_arg("maxspin", 20000);
   g_files_used = (int)hk_arg("files", 5);
   if (g_files_used > 300) g_files_used = 300;
-  hk_rng_seed(&R, seed, 140);
+  g_par = (int)hk_arg("par", 0);
+  g_vt = (int)hk_arg("vt", 0);
+  if (g_vt) g_par = 0;
+  ull root_now = 1000000;
+  g_now = &root_now;
+  if (g_workers > 64) g_workers = 64;
+  hk_rng_t R; hk_rng_seed(&R, seed, 140);
   dr_options opts;
   dr_options_default_(&opts);                  /* defaults, then the DR_* environment variables */
   opts.dag_file_prefix = prefix;
@@ -130,11 +228,15 @@ int main(int argc, char ** argv) {
   opts.hooks.enter_wait_tasks = on_interval;
   opts.hooks.enter_other = on_interval;
   opts.hooks.end_task = on_interval;
-  int w = (int)hk_below(&R, (uint64_t)g_workers);
+  int w = g_par ? tok_acquire(&R) : (int)hk_below(&R, (uint64_t)g_workers);
+  VT();
   dr_start__(&opts, "root.c", 1, w, g_workers);
-  ull tinf = run_task(0, &w, 0, 1);
+  ull tinf = run_task(&R, 0, &w, 0, 1);
+  VT();
   dr_stop__("root.c", 2, w);                   /* ends the root task */
+  if (g_vt) { hk_report("virtual_clock_reads", (long long)myth_verif_dr_vclock_reads()); myth_verif_dr_vclock_set(0); }
   tinf += g_last_dur; g_n_end++;
+  ull root_elapsed = GS.root->info.end.t - GS.root->info.start.t;
   dr_dag_node_info * ri = &GS.root->info;
   /* ---- the recorder's totals in its root node vs the oracle ---- */
   HK_CHECK(ri->t_1 == g_T1, "dr:work", "recorder work %llu != sum of the %ld interval lengths %llu", (ull)ri->t_1, g_hook_calls, g_T1);
@@ -150,6 +252,9 @@ int main(int argc, char ** argv) {
   hk_sample("seed %llu: %ld creates, %ld sections, %ld others on %d workers; T1=%llu T_inf=%llu; root holds %ld nodes",
             (ull)seed, g_n_create, g_n_section, g_n_other, g_workers, g_T1, tinf, ri->cur_node_count);
   hk_report("T1", (long long)g_T1);
+  hk_report("parallel_os_threads", g_threads_started);
+  hk_report("max_tasks_alive_at_once", g_max_live);
+  hk_report("work_exceeds_elapsed_time", g_T1 > root_elapsed);
   hk_report("Tinf", (long long)tinf);
   hk_report("creates", g_n_create);
   hk_report("waits", g_n_wait);
